@@ -11,6 +11,7 @@ mod u3;
 mod u4;
 mod u5;
 mod u5c;
+mod u5d;
 mod u6;
 mod u6b;
 mod u8;
@@ -48,6 +49,8 @@ fn main() {
     ("u5c", "run") => u5c::run(rest),
     ("u5c", "show") => u5c::show(rest),
     ("u5c", "replay") => u5c::replay(rest),
+    ("u5d", "find") => u5d::find(rest),
+    ("u5d", "replay") => u5d::replay(rest),
     ("u6", "find") => u6::find(rest),
     ("u6", "replay") => u6::replay(rest),
     ("u6b", "find") => u6b::find(rest),
